@@ -2,7 +2,7 @@
    after.  Only the property theorems, non-vacuity examples, Print Assumptions. *)
 From Coq Require Import List ZArith Bool.
 From Model Require Import Orm.
-From Proofs Require Import OrmSpec OrmLazy OrmLog OrmFlush OrmInvDirect.
+From Proofs Require Import OrmSpec OrmLazy OrmLog OrmFlush OrmInvDirect OrmInvC16.
 Import ListNotations.
 Open Scope Z_scope.
 
@@ -82,6 +82,36 @@ Theorem C16_delete_immediate :
     assoc (i_id (get_inst s o)) (t_rows (tbl s' Lazy)) = None.
 Proof. exact C16_delete_immediate_proof. Qed.
 
+(* Whatever the history -- `guard16` admits EVERY operation: expire, expireAll, cache.clear(), pickling, out-of-band SQL,
+   injected faults -- an object the application holds never shows anything else than the pending value for a column
+   with an unwritten assignment (the attribute may be absent: an expired object re-reads it on access, see next).
+   Before fix ab43260 a reload overwrote the assigned value with the stored one. *)
+Theorem C16_pending_always_shown :
+  forall (cfg : config) (ops : list op) (o : nat),
+    forallb guard16 ops = true ->
+    let s := run cfg ops in
+    held s o -> cache_values (i_k (get_inst s o)) = true -> pending_shown (get_inst s o).
+Proof. exact C16_pending_shown_proof. Qed.
+
+(* ... and on every reachable state reading such a column returns the pending value (not-found when the row was
+   deleted behind the library's back), keeps the pending set and writes nothing. *)
+Theorem C16_read_returns_pending :
+  forall (cfg : config) (ops : list op) (h o c : nat) (v : val) (r : res outv) (s' : st),
+    let s := run cfg ops in
+    nth h (slots s) None = Some o ->
+    is_lazy (i_k (get_inst s o)) = true ->
+    nassoc c (i_pending (get_inst s o)) = Some v -> (c < 3)%nat ->
+    step cfg s (ORead h c) = (r, s') ->
+    (r = Ret (RVal v) \/ r = Raise ENotFound) /\
+    (assoc (i_id (get_inst s o)) (t_rows (tbl s (i_k (get_inst s o)))) <> None -> r = Ret (RVal v)) /\
+    pending_shown (get_inst s' o) /\ i_pending (get_inst s' o) = i_pending (get_inst s o) /\ tables s' = tables s.
+Proof. exact C16_read_returns_pending_reachable_proof. Qed.
+
+(* the former open finding's history: expire, assign, read another column (reload), read the assigned column *)
+Example C16_reload_keeps_assignment :
+  fst (step cfg16 (run cfg16 hist16) (ORead 0 0)) = Ret (RVal (VInt 3)).
+Proof. exact C16_hist16_read. Qed.
+
 (* non-vacuity: a reachable state with a held lazy object that has pending values, and what the
    model computes on it *)
 Definition cfg0 := {| doCache := true; cullFreq := 100; cullFrac := 2 |}.
@@ -107,3 +137,5 @@ Print Assumptions C16_lazy_assignment.
 Print Assumptions C16_pending_keeps_latest.
 Print Assumptions C16_insert_immediate.
 Print Assumptions C16_delete_immediate.
+Print Assumptions C16_pending_always_shown.
+Print Assumptions C16_read_returns_pending.
